@@ -920,7 +920,8 @@ impl Ctx {
                 }
             }
             let g = acc.groups.get_mut(name).unwrap();
-            g.evaluations += 1 + rec.sub_evals;
+            // a case that registers several non-trivial sub-cases evaluated at least that many
+            g.evaluations += 1 + rec.sub_evals.max(rec.keys_extra.len() as u64);
             g.nontrivial += nt;
             if rec.discard {
                 g.discarded += 1;
